@@ -191,6 +191,10 @@ def _parse_bond_block(
             bond_tuples = [(atom1_index, atom2_index)]
 
         for t in bond_tuples:
+            if t[0] == t[1]:
+                raise MolfileParserException(
+                    f"Atom {t[0] + 1} may not be connected to itself"
+                )
             bonds[t] = bond_attrs.copy()
 
     return bonds
